@@ -216,6 +216,11 @@ func (r *Runner) run(spec *PropSpec) *runResult {
 			res.ctxs = append(res.ctxs, fc)
 			res.obls = append(res.obls, fc.obls...)
 		}
+		if g == "fnvkey" {
+			fc := r.w.groundFNVKey()
+			res.ctxs = append(res.ctxs, fc)
+			res.obls = append(res.obls, fc.obls...)
+		}
 		if g == "cachetypes" {
 			fc := r.w.groundCacheTypes()
 			res.ctxs = append(res.ctxs, fc)
